@@ -258,9 +258,9 @@ def r_improve_loop(ctx):
     strict = lambda e: isinstance(e, ast.Compare) and isinstance(e.ops[0], (ast.Lt, ast.Gt))
     strict_names = {t_.id for n_ in g.nodes if n_.kind == "stmt" and isinstance(n_.ast, ast.Assign) and strict(n_.ast.value)
                     for t_ in n_.ast.targets if isinstance(t_, ast.Name)}
-    is_bound = lambda n: n.kind == "stmt" and (C.has_call(n, "append_z3_assertion") or C.has_call(n, "_solver.add")) and any(
-        strict(x) or (isinstance(x, ast.Call) and any(isinstance(a_, ast.Name) and a_.id in strict_names for a_ in x.args))
-        for x in ast.walk(n.ast))
+    # the bound is whatever is asserted inside the loop: that it is the strict `variable < / > current value` of the right
+    # direction is decided on the extracted term by R-DIRECTION
+    is_bound = lambda n: n.kind == "stmt" and (C.has_call(n, "append_z3_assertion") or C.has_call(n, "_solver.add"))
     for what, pred in (("push()", lambda n: n in pushes), ("the strict improvement bound", is_bound)):
         p = g.path_avoiding(mdl, chk, pred)
         if p is None:
@@ -389,6 +389,26 @@ def r_objective_handed(ctx):
                     ctx.violation("R-OBJ-HANDED", where, "direction of the objective handed to the optimiser",
                                   f"on [{cfgs}] {ev.data['name']}({show(norm(tgt))[:100]}) is not under the test "
                                   f"`{show(norm(A(obj, 'kind')))[:80]} == '{ev.data['name']}'`", srcline(ev.site))
+            # which objective(s) are handed over: the equivalent weighted one exactly in weight mode, each declared one
+            # otherwise - z3.Optimize has no 'weight' priority, handing it the individual objectives in that mode makes it
+            # optimise something else than the documented weighted sum
+            def source(ev):
+                o_ = ev.data["args"][0][1]
+                txt = show(o_)
+                if "build_equivalent_weighted_objective" in txt:
+                    return "the equivalent weighted objective"
+                if o_[0] == "elem" and "objectives" in show(o_[1][3]):
+                    return "each declared objective"
+                return "the single objective"
+            srcs = {source(ev) for v in got.values() for ev in v}
+            weight_mode = dec.get("self.optimize_priority == 'weight'") is True
+            want_src = {"the single objective"} if label == "a single objective" else \
+                ({"the equivalent weighted objective"} if weight_mode else {"each declared objective"})
+            if srcs and srcs != want_src:
+                ctx.violation("R-OBJ-HANDED", where, f"which objective is handed to z3.Optimize ({label})",
+                              f"on [{cfgs}] with {label} the Optimize handle receives {sorted(srcs)}; documented: {sorted(want_src)}"
+                              + (" (the weighted sum is what 'weight' mode optimises)" if weight_mode else ""), LOC)
+                continue
             missing = [k for k, v in got.items() if not v]
             if missing:
                 ctx.violation("R-OBJ-HANDED", where, f"objective handed to z3.Optimize ({label})",
@@ -499,7 +519,14 @@ def r_chained_cmp(ctx):
         ctx.ok("R-CHAINED-CMP", f"no chained comparison over non-trivial operands in {n} comparisons (fixture matches)")
 
 
-C12_RULES = [r_block_clause, r_chained_cmp, lambda ctx: r_scoped_assert(ctx), lambda ctx: r_push_pop(ctx)]
+def r_unique_unscheduled(ctx):
+    """'visits every distinct valid timing exactly once' needs one representation per schedule: the blocking clause compares
+    start, end and scheduled flag, so an unscheduled optional task must have its start, end (and duration) pinned to a single
+    point - the unscheduled branch of Task.set_assertions, decided by R-SET-ASSERTIONS (shared with C01 / C06)"""
+    task_rules.r_task_oblig(ctx, mode="implies", rule="R-SET-ASSERTIONS", obligations=False)
+
+
+C12_RULES = [r_block_clause, r_chained_cmp, lambda ctx: r_scoped_assert(ctx), lambda ctx: r_push_pop(ctx), r_unique_unscheduled]
 
 
 # ---------------------------------------------------------------------------
@@ -729,10 +756,17 @@ def r_scoped_assert(ctx):
                               f"(path {' -> '.join(str(x.lineno) for x in bad if x.lineno)}): the assertion stays in the solver after "
                               f"the call and removes valid schedules from every later solve / find_another_solution",
                               srcline(s))
-    ctx.floor("R-SCOPED-ASSERT", "assertion sites in answering methods", n, 2)
+    ctx.floor("R-SCOPED-ASSERT", "assertion sites in answering methods", n, 1)
 
 
-C13_RULES = [r_push_pop, r_scoped_assert, r_init_once, r_solver_readonly, r_model_typestate, r_block_clause]
+def r_fresh_handle(ctx):
+    """initialise may be called again (explicitly, or through solve on a new solver): every path of initialize() installs a
+    freshly built solver handle before it asserts the problem, so nothing (assertions, registered objectives, pareto state)
+    is carried over from an earlier initialisation - R-OPT-WIRING decides the handle per configuration (shared with C07/C15)"""
+    r_opt_wiring(ctx)
+
+
+C13_RULES = [r_push_pop, r_scoped_assert, r_init_once, r_solver_readonly, r_model_typestate, r_block_clause, r_fresh_handle]
 
 
 # ---------------------------------------------------------------------------
@@ -869,92 +903,73 @@ def r_option_table(ctx):
 C15_RULES = [r_option_noninterference, r_option_table, r_opt_wiring, r_direction, r_improve_loop, r_weighted, r_objective_handed]
 
 
-def _core_listing_complete(ctx, fn, core_names):
-    """R-CORE-COMPLETE (reader side): every label of the unsat core that is found in the label map puts its constraint on the
-    reported list - the only test allowed to skip the append is a 'not already listed' test - and the reported list is the one
-    that is printed.  Dropping a core member from the listing makes the listed set satisfiable together with the basic rules."""
+def _core_reader(ctx):
+    """reader side of the diagnosis, on the extracted IR of solve() (helpers inlined): every constraint that is printed as
+    conflicting is problem.constraints[map[label]] for a label of the unsat core (R-CORE-MAP), and every label of the core
+    that is found in the map is printed - the only tests on the core element are `label in map` and a 'not already listed'
+    test (R-CORE-COMPLETE).  Dropping a core member makes the listed set satisfiable together with the basic rules."""
     where = "SchedulingSolver.solve"
-    g = C.CFG(fn)
-    heads = [h for h in g.find(lambda x: x.kind == "forhead")
-             if ast.unparse(h.ast.iter) in core_names or ast.unparse(h.ast.iter) == "self._solver.unsat_core()"]
-    if not heads:
-        raise P.AnalysisError("R-CORE-COMPLETE: anchor vanished: loop over the unsat core in solve()")
-    h = heads[0]
-    body_ids = {id(x) for x in ast.walk(h.ast)}
-    in_loop = lambda nd: nd.ast is not None and id(nd.ast) in body_ids and nd is not h
-    tests = [t for t in g.find(lambda x: x.kind == "test") if in_loop(t)
-             and C.test_key(t)[0].endswith("inself._map_boolrefs_to_constraints")]
-    if not tests:
-        return      # the unguarded lookup is reported by the reader clause of R-CORE-MAP
-    t = tests[0]
-    # names bound to problem.constraints[...] inside the loop
-    holders = {"self.problem.constraints"}
-    for nd in g.nodes:
-        if in_loop(nd) and nd.kind == "stmt" and isinstance(nd.ast, ast.Assign) and isinstance(nd.ast.value, ast.Subscript) \
-                and ast.unparse(nd.ast.value.value) == "self.problem.constraints":
-            holders |= {tg.id for tg in nd.ast.targets if isinstance(tg, ast.Name)}
-    appends = []
-    lists = set()
-    for nd in g.nodes:
-        if not in_loop(nd) or nd.kind != "stmt":
+    opq = ("initialize", "check_sat", "build_solution", "_solve_optimize_incremental", "print_assertions", "print_statistics",
+           "print_solution", "sort_no_duplicates", "sort_duplicates")
+    runs = runs_of(ctx, Entry("method", cls="SchedulingSolver", name="solve", opaque=opq))
+    fails_closed(ctx, "R-CORE-MAP", runs)
+    mp = A(SELF, "_map_boolrefs_to_constraints")
+    core_call = ("mcall", A(SELF, "_solver"), "unsat_core", (), ())
+    n_listing = 0
+    for run in runs:
+        dbg = dict(run.decisions).get("bool(self.debug)")
+        prints = [ev for ev in run.events if (ev.kind == "print" or (ev.kind == "call" and str(ev.data.get("name", "")).endswith("print")))
+                  and ev.data["args"] and isinstance(ev.data["args"][0], tuple)]
+        pc = norm(S("self.problem.constraints"))
+        listed = [ev for ev in prints if ev.data["args"][0][0] == "idx" and norm(ev.data["args"][0][1]) == pc]
+        if dbg is not True:
+            if listed:
+                ctx.violation("R-DEBUG-SAME-STREAM", where, "conflict listing outside debug mode",
+                              f"on [{describe_config(run)}] constraints are listed although debug is off", LOC)
             continue
-        for c in C.calls_in(nd):
-            if isinstance(c.func, ast.Attribute) and c.func.attr == "append" and isinstance(c.func.value, ast.Name) and c.args:
-                a = c.args[0]
-                src = ast.unparse(a)
-                if src in holders or (isinstance(a, ast.Subscript) and ast.unparse(a.value) == "self.problem.constraints"):
-                    appends.append(nd)
-                    lists.add(c.func.value.id)
-    if not appends or len(lists) != 1:
-        ctx.violation("R-CORE-COMPLETE", where, "core member put on the reported list",
-                      f"no single list receives problem.constraints[...] for the labels of the core (lists: {sorted(lists)})", LOC)
-        return
-    lst = next(iter(lists))
-
-    def dedup_test(nd):
-        if nd.kind != "test":
-            return False
-        tt, _ = C.strip_not(nd.ast.test)
-        return isinstance(tt, ast.Compare) and len(tt.ops) == 1 and isinstance(tt.ops[0], ast.In) \
-            and ast.unparse(tt.comparators[0]) == lst
-
-    t_succ = [m for m, lab in t.succ if C.taken(t, lab, True)]
-    path = None
-    for m in t_succ:
-        if m in appends:
+        core_loops = [ev for ev in run.events_of("mcall") if ev.data.get("name") == "unsat_core"]
+        if not listed:
+            if core_loops:
+                n_listing += 1
+                ctx.violation("R-CORE-COMPLETE", where, "conflicting constraints are reported",
+                              f"on [{describe_config(run)}] the unsat core is read but no constraint of the problem is printed", LOC)
             continue
-        # a dedup test may only be left through its "not yet listed" edge
-        path = g.path_avoiding(m, h, lambda z: z in appends,
-                               edge_ok=lambda a, b, lab: not dedup_test(a) or C.taken(a, lab, False))
-        if path is not None:
-            path = [m] + path if path[0] is not m else path
-            break
-    if path is not None:
-        ctx.violation("R-CORE-COMPLETE", where, "core member dropped from the reported conflict",
-                      f"a label of the unsat core that is found in the label map does not always put its constraint on `{lst}` "
-                      f"(path {' -> '.join(str(x.lineno) for x in path if x.lineno)}; only a 'not already listed' test may skip the "
-                      f"append): the constraints that are listed can then be satisfiable together", srcline(t))
-    else:
-        ctx.ok("R-CORE-COMPLETE", f"{where}: every mapped core label puts its constraint on `{lst}`")
-    # the list is what is reported: a later loop over it prints each element, and nothing removes from it
-    reporters = [x for x in g.find(lambda x: x.kind == "forhead") if ast.unparse(x.ast.iter) == lst and isinstance(x.ast.target, ast.Name)]
-    shown = False
-    for r in reporters:
-        v = r.ast.target.id
-        for nd in ast.walk(r.ast):
-            if isinstance(nd, ast.Call) and ast.unparse(nd.func) == "print" and any(
-                    isinstance(a, ast.Name) and a.id == v or v in {n.id for n in ast.walk(a) if isinstance(n, ast.Name)} for a in nd.args):
-                shown = True
-    removers = [nd for nd in g.nodes if nd.ast is not None and nd.kind == "stmt" and any(
-        isinstance(c.func, ast.Attribute) and c.func.attr in ("remove", "pop", "clear") and ast.unparse(c.func.value) == lst
-        for c in C.calls_in(nd))]
-    rebinds = [nd for nd in g.nodes if nd.kind == "stmt" and lst in C.assigned_names(nd)]
-    if shown and not removers and len(rebinds) == 1:
-        ctx.ok("R-CORE-COMPLETE", f"{where}: `{lst}` is printed element by element and never shrunk", nontrivial=False)
-    else:
-        ctx.violation("R-CORE-COMPLETE", where, "reported list is the collected list",
-                      f"`{lst}`: printed element by element: {shown}; shrinking calls: {[x.lineno for x in removers]}; "
-                      f"bindings: {[x.lineno for x in rebinds]}", LOC)
+        for ev in listed:
+            n_listing += 1
+            arg = ev.data["args"][0]
+            cfgs = describe_config(run)
+            if len(ev.loops) != 1 or norm(ev.loops[0][3]) != norm(core_call):
+                ctx.violation("R-CORE-MAP", where, "listed constraints come from the unsat core",
+                              f"on [{cfgs}] `{show(norm(arg))[:120]}` is printed under loops {[show(norm(l[3]))[:80] for l in ev.loops]}, "
+                              f"not once per element of self._solver.unsat_core()", srcline(ev.site))
+                continue
+            e_ = ("elem", ev.loops[0])
+            labels = (("fstr", (e_,)), e_)
+            ok_arg = any(norm(arg) == norm(("idx", S("self.problem.constraints"), ("idx", mp, lb))) for lb in labels)
+            if ok_arg:
+                ctx.ok("R-CORE-MAP", f"{where} [{cfgs}]: each listed conflict is problem.constraints[map[label]] for a label of the unsat core",
+                       sample={"printed": show(norm(arg))[:160]})
+            else:
+                ctx.violation("R-CORE-MAP", where, "conflicting constraints looked up through the label map",
+                              f"on [{cfgs}] prints {show(norm(arg))[:200]}; documented: problem.constraints[label map[label of the core]]",
+                              srcline(ev.site))
+            about_elem = [g for g in ev.guards if any(x == e_ for x in subterms(g))]
+            allowed = {repr(norm(app("in", lb, mp))) for lb in labels}
+            extra = [g for g in about_elem if repr(norm(g)) not in allowed
+                     and not (is_app(norm(g), "not") and is_app(norm(g)[2], "in") and "constraints[" in show(norm(g)[2][2]))]
+            has_guard = any(repr(norm(g)) in allowed for g in about_elem)
+            if not has_guard:
+                ctx.violation("R-CORE-MAP", where, "lookup of a label that may be absent from the map",
+                              f"on [{cfgs}] the label of a core element is looked up without the test `label in map`: KeyError for "
+                              f"assertions that belong to no constraint", srcline(ev.site))
+            elif extra:
+                ctx.violation("R-CORE-COMPLETE", where, "core member dropped from the reported conflict",
+                              f"on [{cfgs}] a constraint of the core is listed only under {[show(norm(g))[:100] for g in extra]} (only "
+                              f"`label in map` and a 'not already listed' test may filter): the constraints that are listed can then be "
+                              f"satisfiable together", srcline(ev.site))
+            else:
+                ctx.ok("R-CORE-COMPLETE", f"{where} [{cfgs}]: every mapped core label is listed")
+    ctx.floor("R-CORE-COMPLETE", "conflict listing sites x debug configurations", n_listing, 1)
 
 
 def r_core_map(ctx):
@@ -1022,51 +1037,7 @@ def r_core_map(ctx):
                 ctx.violation("R-CORE-MAP", "SchedulingSolver.initialize", "owner name passed with the assertions",
                               f"`{ast.unparse(node)[:120]}` passes `{arg}` for assertions `{first}`", f"{LOC}:{node.lineno}")
     ctx.floor("R-CORE-MAP", "named drain calls", named_calls, 1)
-    # the reader: looks the core label up in the same map and indexes problem.constraints with the stored name
-    fn = solver_fn(ctx, "solve")
-    ok_reader, why = False, "no loop over the unsat core found"
-    core_names = set()
-    for node in ast.walk(fn):
-        if isinstance(node, ast.Assign) and isinstance(node.value, ast.Call) and ast.unparse(node.value.func) == "self._solver.unsat_core":
-            core_names |= {t.id for t in node.targets if isinstance(t, ast.Name)}
-    for loop_ in [n for n in ast.walk(fn) if isinstance(n, ast.For)]:
-        it = ast.unparse(loop_.iter)
-        if not (it in core_names or it == "self._solver.unsat_core()"):
-            continue
-        why = "the core loop does not index problem.constraints through the label map"
-        assigns = {}
-        for node in ast.walk(loop_):
-            if isinstance(node, ast.Assign) and len(node.targets) == 1 and isinstance(node.targets[0], ast.Name):
-                assigns[node.targets[0].id] = node.value
-        for node in ast.walk(loop_):
-            if isinstance(node, ast.Subscript) and ast.unparse(node.value) == "self.problem.constraints":
-                key = node.slice
-                if isinstance(key, ast.Name) and key.id in assigns:
-                    key = assigns[key.id]
-                if not (isinstance(key, ast.Subscript) and ast.unparse(key.value) == "self._map_boolrefs_to_constraints"):
-                    why = f"problem.constraints is indexed with {ast.unparse(node.slice)}, not with the name stored in the label map"
-                    continue
-                label = ast.unparse(key.slice)
-                par = node
-                guarded = False
-                while par is not None and par is not loop_:
-                    prev_ = par
-                    par = getattr(par, "_parent", None)
-                    if isinstance(par, ast.If):
-                        core, pos = C.strip_not(par.test)
-                        if ast.unparse(core).replace(" ", "") == f"{label}inself._map_boolrefs_to_constraints".replace(" ", "") \
-                                and (prev_ in par.body if pos else prev_ in par.orelse):
-                            guarded = True
-                uses_elem = isinstance(loop_.target, ast.Name) and loop_.target.id in label
-                if guarded and uses_elem:
-                    ok_reader = True
-                else:
-                    why = f"lookup of {label} is not guarded by `{label} in self._map_boolrefs_to_constraints` or does not use the core element"
-    _core_listing_complete(ctx, fn, core_names)
-    if ok_reader:
-        ctx.ok("R-CORE-MAP", "solve(): each listed conflict is problem.constraints[map[label]] for a label of the unsat core found in the map")
-    else:
-        ctx.violation("R-CORE-MAP", "SchedulingSolver.solve", "conflicting constraints looked up through the label map", why, LOC)
+    _core_reader(ctx)
 
 
 C19_RULES = [r_core_map, r_option_noninterference, r_option_table]
